@@ -1,12 +1,95 @@
-(** Property C10 — the squash operator merges exactly the two marked atoms.
-    Only statements, each closed by [exact]; proofs live in Hydro/SquashProofs.v. *)
+(** Property C10 — shared atoms: the squash operator merges exactly the two marked atoms.
+    Only statements, each closed by [exact]; the proofs live in Hydro/SquashProofs.v.
+    [squash_self_loops], [squash_concat_attrs], [squash_prefix], [squash_edge_attr] are GENERATED from
+    resolve.py on every run (Gen/HydroGen.v).
+
+    The full statement "for every well-formed molecule graph and every set of `!` pairs the loop
+    returns, with one node fewer per merged pair, …" is NOT provable for the current code: it is
+    refuted below for three defect classes (witnesses replayed on the implementation by the check,
+    see known_findings.json).  What is proved ([C10_partial_*]) is the statement for every input
+    whose bookkeeping is [squash_safe]: the `!` pairs never ask to merge an atom with itself (class
+    redundant-squash-cycle) and never look up an atom that was already merged away (class
+    stale-squashed-entry).  The check evaluates on every case that an input outside these two
+    classes is squash_safe (SquashCheck.class_cover_ok). *)
 From Coq Require Import String.
 From Coq Require Import List Ascii ZArith Bool.
-From CGV Require Import Base.PyBase Base.PyVal Base.NxGraph Gen.HydroGen Hydro.Hydrogens Hydro.Squash Hydro.SquashProofs.
+From CGV Require Import Base.PyBase Base.PyVal Base.NxGraph Gen.HydroGen Hydro.Hydrogens Hydro.Squash
+     Hydro.SquashDefs Hydro.SquashProofs.
+From CGV Require Hydro.HydroCheck Hydro.SquashCheck.
 Import ListNotations.
 Open Scope Z_scope.
 
-Theorem C10_constants : squash_self_loops = false /\ squash_concat_attrs = [S "fragid"; S "mapping"].
-Proof. exact squash_constants. Qed.
+(** networkx.contracted_nodes(G, u, v, self_loops=False) on a well-formed simple graph *)
+Theorem C10_contracted_spec : forall g u v au av, wf_graph g -> u <> v ->
+  nattrs g u = Some au -> nattrs g v = Some av ->
+  exists h, contracted false g u v = Ok h /\
+    node_keys h = filter (fun k => negb (Z.eqb k v)) (node_keys g) /\
+    (forall y x, has_edge h y x = contracted_edge g u v y x) /\
+    nattrs h u = Some (aset (S "contraction") (store_contraction au (VInt v) (attrs_to_pyval av)) au) /\
+    nattrs h v = None /\
+    (forall y, y <> u -> y <> v -> nattrs h y = nattrs g y).
+Proof. exact contracted_spec. Qed.
 
-Print Assumptions C10_constants.
+(** the kept atom keeps the bonds of both; nothing else changes *)
+Theorem C10_partial_squash_neighbours : forall g u v au av h, wf_graph g -> u <> v ->
+  nattrs g u = Some au -> nattrs g v = Some av -> contracted squash_self_loops g u v = Ok h ->
+  wf_graph h /\ has_node h v = false /\
+  (forall x, x <> u -> x <> v -> has_edge h u x = has_edge g u x || has_edge g v x) /\
+  has_edge h u u = false /\
+  (forall y x, y <> u -> y <> v -> x <> u -> x <> v -> has_edge h y x = has_edge g y x) /\
+  (forall y x, has_edge h y x = contracted_edge g u v y x).
+Proof. exact squash_neighbours. Qed.
+
+(** the merged atom belongs to both coarse nodes; every other atom keeps its attributes *)
+Theorem C10_partial_squash_membership : forall g u v au av fu fv mu mv, wf_graph g -> u <> v ->
+  nattrs g u = Some au -> nattrs g v = Some av ->
+  aget (S "fragid") au = Some (VList fu) -> aget (S "fragid") av = Some (VList fv) ->
+  aget (S "mapping") au = Some (VList mu) -> aget (S "mapping") av = Some (VList mv) ->
+  forall sq a b bond, starts_squash bond = Ok true -> sq_get sq a = u -> sq_get sq b = v ->
+  exists g2, squash_step (g, sq) (a, b, bond) = Ok (g2, sq_set v u sq) /\
+    node_keys g2 = filter (fun k => negb (Z.eqb k v)) (node_keys g) /\
+    (forall y x, has_edge g2 y x = contracted_edge g u v y x) /\
+    (exists A, nattrs g2 u = Some A /\ aget (S "fragid") A = Some (VList (fu ++ fv))
+               /\ aget (S "mapping") A = Some (VList (mu ++ mv))
+               /\ forall k, k <> S "fragid" -> k <> S "mapping" -> k <> S "contraction" -> aget k A = aget k au) /\
+    (forall y, y <> u -> y <> v -> nattrs g2 y = nattrs g y).
+Proof. exact squash_membership. Qed.
+
+(** exactly one node fewer per `!` pair *)
+Theorem C10_partial_squash_count : forall g g', wf_graph g ->
+  squash_safe (node_keys g) [] [] (bang_items g) = true -> squash_atoms g = Ok g' ->
+  wf_graph g' /\ (length g' + length (bang_items g) = length g)%nat.
+Proof. exact squash_count. Qed.
+
+(** non-vacuity: a chain of three fragments sharing one atom, next to an ordinary `$` bond *)
+Example C10_nonvacuous :
+  wf_graph g_chain /\ squash_safe (node_keys g_chain) [] [] (bang_items g_chain) = true /\
+  length (bang_items g_chain) = 2%nat /\
+  exists g', squash_atoms g_chain = Ok g' /\ length g' = 4%nat /\
+             node_get g' 1 (S "fragid") = Some (VList [VInt 0; VInt 1; VInt 2]) /\
+             neighbors g' 1 = [0; 4].
+Proof. exact squash_count_nonvacuous. Qed.
+
+(** REFUTED on the current code, one witness per listed defect class *)
+Theorem C10_refuted_redundant_squash_cycle :
+  wf_graph g_triangle /\ squash_atoms g_triangle = Err EKey /\
+  squash_safe (node_keys g_triangle) [] [] (bang_items g_triangle) = false.
+Proof. exact refuted_redundant_cycle. Qed.
+Theorem C10_refuted_stale_squashed_entry :
+  wf_graph g_stale /\ squash_atoms g_stale = Err EKey /\
+  squash_safe (node_keys g_stale) [] [] (bang_items g_stale) = false.
+Proof. exact refuted_stale_entry. Qed.
+Theorem C10_refuted_stale_hcount_aromatic :
+  wf_graph g_toluene /\ squash_safe (node_keys g_toluene) [] [] (bang_items g_toluene) = true /\
+  exists g', squash_atoms g_toluene = Ok g' /\
+             SquashCheck.stale_hcount_aromatic (observe g') = true /\
+             node_get g' 0 (S "hcount") = Some (VFlt (S "1.5")) /\ bonds_half g' 0 = Ok 8.
+Proof. exact refuted_stale_hcount. Qed.
+
+Print Assumptions C10_contracted_spec.
+Print Assumptions C10_partial_squash_neighbours.
+Print Assumptions C10_partial_squash_membership.
+Print Assumptions C10_partial_squash_count.
+Print Assumptions C10_refuted_redundant_squash_cycle.
+Print Assumptions C10_refuted_stale_squashed_entry.
+Print Assumptions C10_refuted_stale_hcount_aromatic.
